@@ -1,1 +1,2 @@
 //! shared helpers of the verification harness
+pub mod corpus;
